@@ -37,6 +37,10 @@ claim("C10", "static analysis: SQL-subset reader over the string constants of pk
       "Decides: for every statement of pkg/db the column, placeholder and bound-argument counts agree and the i-th bound value / Scan destination is the field named like the i-th column; insert, update and restore of TS_Agents use the same column set; every column that carries a Go string has TEXT/BLOB affinity under SQLite's documented rules; the restore query filters WHERE Active = 1 and copies every scanned column into the like-named agent field; in handleDemonAgent Teamserver.AgentAdd (which calls DB.AgentAdd on every path) dominates the acknowledgement write; agent ids are parsed with 64 bits. Not decided: crash points (SQLite's journal), behaviour when DB.AgentAdd returns an error (only logged), listener configuration JSON round trip.",
       TRUST, "DESIGN.md §3 R9, §4 C10")
 
+claim("C03", "static analysis: memoised SSA path walk from the true edge of every CanIRead guard comparing the Parse* sequence on the same parser with the guard's literal list (boolean-fact and phi-of-literals aware), cut-set reachability for unguarded reads, reader/pre-flight width model, who-may-write and dominance rules for session identity",
+      "Decides: ParseInt32/ParseBool/ParseInt64 copy exactly the field's leading bytes and advance by its width, and CanIRead advances by the same width per ReadType; at each of the ~148 guard sites every path's read sequence is a prefix of the guard's list by width class and some path consumes the whole list; every Parse* in TaskDispatch is reachable only through the true edge of a guard on its parser; CanIRead-conditioned loops consume on every path back; Agent.NameID is stored only by the three constructors; AgentAdd is on the !AgentExist(header id) edge; ParseDemonRegisterRequest returns a session only where inner id == header id and stores the 32+16 key/IV bytes read. Not decided: UTF-16/NUL-stripping semantics, console formatting fidelity, the Demon's PackageAdd order (wire schema vs C source).",
+      TRUST, "DESIGN.md §3 R2, §4 C03")
+
 for i in range(1, 21):
     pid = "C%02d" % i
     if pid not in CLAIMS and pid not in NA:
